@@ -53,7 +53,7 @@ MANIFEST = dict(
               "+ effect summaries",
 )
 FLOORS = {"C20.1": 20, "C20.2": 20, "C20.3": 16, "C20.4": 8, "C20.5": 3,
-          "C20.6": 8, "C20.8": 7, "C20.9": 4}
+          "C20.6": 8, "C20.8": 7, "C20.9": 4, "C20.10": 1}
 
 PL = "evo.tools.plot."
 PM = PL + "PlotMode"
@@ -251,6 +251,7 @@ def check(ctx):
     ctx.section(_time_axes, ctx, prog)
     ctx.section(_formatter, ctx, prog)
     ctx.section(_euler_default, ctx, prog)
+    ctx.section(_euler_getter, ctx, prog)
     ctx.section(_result_plots, ctx, prog)
     ctx.section(_purity, ctx, prog)
     # the plotted quantities are the trajectory's *current* ones: speeds,
@@ -1354,6 +1355,48 @@ def _result_plots(ctx, prog):
            f"plot_result: traj_colormap(traj={fmt(b.get('traj'))[:40]}, "
            f"array={fmt(b.get('array'))[:50]}, mode={fmt(pm)[:40]})",
            key="C20.8:colormap")
+
+
+def _euler_getter(ctx, prog):
+    """C20.10: the roll / pitch / yaw plots show get_orientations_euler(): the
+    angles are the vendored conversion (euler_from_matrix of the pose, or
+    euler_from_quaternion of the quaternion) of every pose in order, for the
+    requested sequence. A re-implementation next to it (a vectorised fast
+    path for one sequence ...) is not modelled: whether it agrees with the
+    vendored function for every rotation (gimbal lock at pitch +-90 deg) is
+    arithmetic — undecidable (assumption A4 covers the vendored code only)."""
+    f = prog.func("evo.core.trajectory.PosePath3D.get_orientations_euler")
+    ctx.analysed_fn(f.qualname)
+    selfp, axes = tm.param("self"), tm.param("axes")
+    r = Interp(prog, inline_properties=False).run(f, {"axes": const("sxyz")})
+    r2 = Interp(prog, inline_properties=False).run(f)
+    ok, odd = True, None
+    for ret in (r.ret, r2.ret):
+        for alt in tm.strip_ite(ret):
+            pe_ = per_element(alt)
+            good = pe_ is not None and not pe_[3] and is_call_to(
+                pe_[0], "evo.core.transformations.euler_from_matrix",
+                "evo.core.transformations.euler_from_quaternion") and \
+                pe_[0].args[1] and pe_[0].args[1][0] is T(
+                    "elem", pe_[2], pe_[1]) and pe_[2] in (
+                    tm.attr(selfp, "_poses_se3"),
+                    tm.attr(selfp, "_orientations_quat_wxyz"),
+                    tm.attr(selfp, "poses_se3"),
+                    tm.attr(selfp, "orientations_quat_wxyz"))
+            if not good:
+                ok, odd = False, alt
+    if not ok and any(is_call_to(x, "numpy.arctan2", "numpy.arcsin",
+                                 "numpy.arccos", "math.atan2")
+                      for x in odd.walk()):
+        ctx.undecidable("C20.10", f, "get_orientations_euler computes angles "
+                        "with its own trigonometry next to the vendored "
+                        "conversion (not covered by assumption A4)")
+        return
+    ctx.ob("C20.10", f, ok,
+           "get_orientations_euler: the vendored Euler conversion of every "
+           "pose, in order, for the requested sequence" if ok else
+           f"get_orientations_euler returns {fmt(odd)[:100]}",
+           key="C20.10:euler-getter")
 
 
 def _euler_default(ctx, prog):
